@@ -25,7 +25,34 @@ func modeName(m objecttree.Mode) string {
 	return fmt.Sprintf("mode%d", int(m))
 }
 
+// focusProp is the property whose check is running (VERIF_PROPERTY; "" = both). A violation of the OTHER
+// property of this area is recorded (at most otherCap of them) but does not end the history: the check of the
+// focus property ignores it, and its own oracles must still get the chance to find a failing input on the
+// same (real) state. Fatal conditions (panic, errors of the real code) always end the history.
+var (
+	focusProp  string
+	otherCount int
+)
+
+const otherCap = 3
+
+func fatalStream(stream string) bool {
+	switch stream {
+	case "panic", "add.error", "reopen.error", "loader.error", "history.error", "setup":
+		return true
+	}
+	return false
+}
+
 func (w *world) violate(prop, stream, desc string) {
+	if focusProp != "" && prop != focusProp && !fatalStream(stream) {
+		if otherCount < otherCap {
+			otherCount++
+			w.r.Violate(prop, "", stream, desc, w.ops())
+		}
+		w.r.Count("violation.other-property." + stream)
+		return
+	}
 	w.failed = true
 	w.r.Violate(prop, "", stream, desc, w.ops())
 }
@@ -227,6 +254,7 @@ func (w *world) apply(rep *replica, m message, what string) (objecttree.AddResul
 		return objecttree.AddResult{Mode: objecttree.Nothing}, false
 	}
 	before := iterIds(rep.tree)
+	rootBefore := rep.tree.Root().Id
 	rep.cache = nil
 	rep.tree.Lock()
 	res, err := rep.tree.AddRawChanges(w.ctx, objecttree.RawChangesPayload{NewHeads: m.heads, RawChanges: m.changes, SnapshotPath: m.path})
@@ -242,6 +270,23 @@ func (w *world) apply(rep *replica, m message, what string) (objecttree.AddResul
 	}
 	w.logf("%s rep%d<-rep%d heads=%s path=%s changes=%s mode=%s added=%s root=%s", what, rep.idx, m.from, join(m.heads), join(m.path), join(ids), modeName(res.Mode), join(added), rep.tree.Root().Id)
 	w.r.Count("apply." + what)
+	if newRoot := rep.tree.Root().Id; newRoot != rootBefore {
+		back := false
+		for _, x := range w.snapChain(rootBefore)[1:] {
+			if x == newRoot {
+				back = true
+			}
+		}
+		if back {
+			w.r.Count("root.moved-back")
+		} else {
+			w.r.Count("root.moved-forward")
+		}
+	}
+	// the snapshot path the tree announces (requests, head updates, batches) is its real snapshot chain
+	if p, err := rep.tree.SnapshotPath(); err != nil || !eqStr(p, w.snapChain(rep.tree.Root().Id)) {
+		w.violate("C09", "snapshot.path", fmt.Sprintf("%s: rep%d (root %s) announces snapshot path %s, its snapshot chain is %s (err=%v)", what, rep.idx, rep.tree.Root().Id, join(p), join(w.snapChain(rep.tree.Root().Id)), err))
+	}
 	w.checkMode(rep, what, before, res.Mode)
 	w.checkReplica(rep, what)
 	return res, true
